@@ -209,6 +209,8 @@ class Sweep:
         """Return the number of unique combinations in the sweep."""
         if self.exclude is not None:
             return len(self.list())
+        if not self.items:
+            return 0
         if self.dims is None or set(self.dims) == self.items.keys():
             # Full Cartesian product; simply multiply together lengths of each dimension
             total_length = 1
